@@ -23,10 +23,10 @@ def us(t):
     return int(round(t * US))
 
 
-def clock_scenario(policy, runs, line_level=True):
+def clock_scenario(policy, runs, line_level=True, tick=None):
     """runs: list of runs; a run is a list of ('work', s) | ('pause', s) | ('until', 'H:MM')."""
     sched = detsched.Sched(policy, trace_files=('clock.py',) if line_level else (), max_steps=30000)
-    world = rtworld.RtWorld(sched, [], tick=TICK)
+    world = rtworld.RtWorld(sched, [], tick=tick or TICK)
     events = []
     try:
         from bardolph.lib.clock import Clock
@@ -134,14 +134,17 @@ def gen_runs(rng, with_until, reruns):
 
 def explore_task(task):
     runs, mode, budget, seed = task
+    tick = None
+    if runs and runs[0] and runs[0][0][0] == 'tick':          # ('tick', seconds) in front of the first run: a slower clock
+        tick, runs = runs[0][0][1], [runs[0][1:]] + runs[1:]
     out = []
     if mode == 'dfs':
-        for sched in detsched.explore(lambda pol: clock_scenario(pol, runs, True), 1, budget):
+        for sched in detsched.explore(lambda pol: clock_scenario(pol, runs, True, tick), 1, budget):
             out.append(([c[1] for c in sched.choices], None if sched.not_judged else sched.events, mode))
     else:
         rng = random.Random(seed)
         for _ in range(budget):
-            sched = clock_scenario(detsched.RandomWalk(rng.randrange(2 ** 30), rng.choice([0.1, 0.4, 0.7])), runs, True)
+            sched = clock_scenario(detsched.RandomWalk(rng.randrange(2 ** 30), rng.choice([0.1, 0.4, 0.7])), runs, True, tick)
             out.append(([c[1] for c in sched.choices], None if sched.not_judged else sched.events, mode))
     return out
 
@@ -167,22 +170,26 @@ def machine_delays(report, rng, n):
             lines, expect = ['units ' + mode], []
             for t in times:
                 lines.append('time ' + t)
+                secs = Fraction(Decimal(t)) / (1000 if mode == 'raw' else 1)        # the delay this value stands for
                 for _ in range(rng.randint(1, 4)):
+                    if rng.random() < 0.25:
+                        # switching units re-expresses the time value: the delay it stands for stays what it was
+                        mode = rng.choice(['logical', 'raw', 'rgb'])
+                        lines.append('units ' + mode)
                     lines.append(rng.choice(['wait', 'wait', 'on "A"', 'off "B"', 'set "A"', 'on all', 'set group "G"', 'wait wait']))
-                    expect += [t] * (2 if lines[-1] == 'wait wait' else 1)
+                    expect += [(mode, secs * (1000 if mode == 'raw' else 1))] * (2 if lines[-1] == 'wait wait' else 1)
             text = '\n'.join(lines) + '\n'
             res = runner.run_script(world, text)
             # a zero delay may be asked of the clock as 0 or not at all
             waits = [ev[1] for ev in res.events if ev[0] == 'wait' and ev[1] != 0]
-            expect = [t for t in expect if t != '0']
+            expect = [(m, v) for m, v in expect if v != 0]
             if len(waits) != len(expect) or not res.accepted or res.machine_fault:
                 report.violation('machine-delays:count', 'script made %d delay requests, its source has %d waits (%s)' % (
                     len(waits), len(expect), res.machine_fault or res.errors.strip()), {'text': text})
                 continue
-            for k, (t, secs) in enumerate(zip(expect, waits)):
-                frac = Fraction(Decimal(t))
+            for k, ((wmode, frac), secs) in enumerate(zip(expect, waits)):
                 rid = len(rows)
-                rows.append({'id': rid, 'kind': 'delay', 'mode': mode, 'path': 'wait', 't': [frac.numerator, frac.denominator],
+                rows.append({'id': rid, 'kind': 'delay', 'mode': wmode, 'path': 'wait', 't': [frac.numerator, frac.denominator],
                              'us': int(round(secs * 1000000))})
                 texts[rid] = (text, k)
     finally:
@@ -214,6 +221,9 @@ def run(report, replay=None):
         [[('pause', 0.25)], [('pause', 1.0)], [('work', 0.375), ('pause', 0.5)]],               # two re-runs
         [[('pause', 0.5), ('until', '8:00'), ('pause', 0.5), ('work', 0.75), ('pause', 0.25)]],  # time-of-day wait restarts the line
         [[('work', 31.0), ('until', '8:00'), ('pause', 0.25)]],                                  # already that time of day
+        [[('tick', 1.25), ('pause', 1.5), ('pause', 0.0), ('work', 0.5), ('pause', 1.0)]],            # ticks further apart than the
+        [[('tick', 2.5), ('pause', 0.5), ('pause', 3.0)], [('pause', 1.0)]],                          # clock's own one-second patience
+        [[('tick', 1.5), ('pause', 1.0), ('until', '8:00'), ('pause', 2.0)]],
     ]
     scenarios = fixed + [gen_runs(rng, i % 3 == 0, rng.choice([1, 1, 2])) for i in range(n_scen)]
     for runs in scenarios:
@@ -228,7 +238,7 @@ def run(report, replay=None):
                     report.notes['schedules_cut_by_step_budget'] = report.notes.get('schedules_cut_by_step_budget', 0) + 1
                     continue
                 rid = len(batch)
-                batch.append({'id': rid, 'ev': events})
+                batch.append({'id': rid, 'ev': events, 'slow': bool(task[0] and task[0][0] and task[0][0][0][0] == 'tick' and task[0][0][0][1] > 1.0)})
                 meta[rid] = (task[0], schedule, mode)
     shards = tlc.split(batch, 16)
     results = tlc.run_sharded('TraceClock', shards, timeout=1500)
